@@ -250,10 +250,19 @@ impl ProxyClusterMeta {
                 })?;
             let ProxyClusterMetaData {
                 cluster_name,
-                local,
-                peer,
+                mut local,
+                mut peer,
                 cluster_config,
             } = data;
+            // The textual form goes through RangeList::parse, which compacts. The serde form does not:
+            // normalise it the same way so that both forms install the same metadata.
+            for node_map in [&mut local.0, &mut peer.0] {
+                for slot_ranges in node_map.values_mut() {
+                    for slot_range in slot_ranges.iter_mut() {
+                        slot_range.get_mut_range_list().compact();
+                    }
+                }
+            }
             return Ok((
                 Self {
                     version,
